@@ -5,14 +5,16 @@ from . import node_model  # noqa
 PEER_RECV, PEER_SEND = 0x01, 0x02
 CONNECTING, CONNECTED, READY, READY_WAITING_DWA, DISCONNECTING, CLOSING, CLOSED = 0x10, 0x11, 0x12, 0x13, 0x1a, 0x1b, 0x1c
 
-R.model("BytesQueue", builtin=True, fields={})
+R.model("BytesQueue", builtin=True, fields={"g_n": "int"})
 R.model("MsgQueue", builtin=True, fields={"g_put": "Seq[Message]", "g_taken": "Seq[Message]"})
 R.model("PeerConnection", fields={"_read_buffer_queue": "BytesQueue", "_write_msg_queue": "MsgQueue",
                                   "g_dlog": "Seq[Message]", "message_handler": "Any:handler"})
 R.model("Message", fields={"g_src": "bytes"})
 R.contract("BytesQueue.get", trusted=True, params={"self": "BytesQueue", "block": "bool", "timeout": "int"},
            returns="bytes", raises=[Raise("queue.Empty", "True", "may")],
-           note="environment input: an arbitrary chunk of received bytes, or a timeout")
+           ghost_modifies=["self.g_n"], ghost_ensures=["self.g_n == old(self.g_n) + 1"],
+           ensures_exc={"queue.Empty": ["self.g_n == old(self.g_n)"]},
+           note="environment input: an arbitrary chunk of received bytes, or a timeout; g_n counts the chunks handed out")
 R.contract("BytesQueue.put", trusted=True, params={"self": "BytesQueue", "item": "bytes"})
 R.contract("MsgQueue.get", trusted=True, params={"self": "MsgQueue", "block": "bool", "timeout": "int"},
            returns="Message", raises=[Raise("queue.Empty", "True", "may")],
@@ -60,14 +62,17 @@ R.contract("PeerConnection.work_read_queue", params={"self": "PeerConnection", "
            requires=[("starts-empty", "rb(self) == b''")],
            raises=[], modifies=["self._read_buffer", "self._last_read", "self._last_msg", "self.state",
                                 "self._read_thread.stopped", "self._write_thread.stopped"] + _HANDLER_MODS,
-           ghost_modifies=["self.g_dlog"],
-           props=["C05", "C14"],
+           ghost_modifies=["self.g_dlog", "self._read_buffer_queue.g_n"],
+           props=["C05", "C14", "C07", "C11"],
            note="thread target: raises nothing; the framing obligations are the loop clauses below")
 R.macro("stuck", ["b"], "len(b) < 20 or hlen(b) > len(b)")
 R.loop("PeerConnection.work_read_queue", 0,
        invariants=[("no-complete-frame-left-waiting", "stuck(rb(self)) or self.state == %d" % CLOSED)],
        local_kinds={"resume_waiting": "bool", "message": "Opt[Message]", "msg_header": "Opt[MessageHeader]"},
-       modifies=["self._read_buffer", "self._last_read", "self._last_msg", "self.g_dlog"] + _HANDLER_MODS)
+       step=[("every-received-chunk-restarts-the-idle-timer",
+              "implies(self._read_buffer_queue.g_n > prev(self._read_buffer_queue.g_n), "
+              "self._last_read >= int(prev(clock())))")],
+       modifies=["self._read_buffer", "self._last_read", "self._last_msg", "self.g_dlog", "self._read_buffer_queue.g_n"] + _HANDLER_MODS)
 R.loop("PeerConnection.work_read_queue", 1,
        invariants=[("waiting-only-when-stuck", "implies(resume_waiting, stuck(rb(self)))")],
        local_kinds={"message": "Opt[Message]", "msg_header": "Opt[MessageHeader]"},
